@@ -107,8 +107,8 @@ void c05_inst_all(std::iostream& s, const String& name, std::vector<char>& buf, 
     SparseMatrixCSCR<DT, IT> h; inst_container_io(h, h, s, name, buf, cfg);
     SparseMatrixBanded<DT, IT> i; inst_container_io(i, i, s, name, buf, cfg);
     MatrixMirrorBuffer<DT, IT> j;
-    buf = j.serialize(cfg); j.deserialize(buf);
-    buf = j.template serialize<DT2, IT2>(cfg); j.template deserialize<DT2, IT2>(buf);
+    buf = j.serialize(); j.deserialize(buf);
+    buf = j.template serialize<DT2, IT2>(); j.template deserialize<DT2, IT2>(buf);
     // file constructors
     DenseVector<DT, IT> a2(FileMode::fm_binary, name); DenseVector<DT, IT> a3(FileMode::fm_binary, s);
     SparseMatrixCSR<DT, IT> f2(FileMode::fm_mtx, name); SparseMatrixCSR<DT, IT> f3(FileMode::fm_mtx, s);
